@@ -123,6 +123,13 @@ def main():
     # 3. audit
     problems, axioms = audit(prop) if rc == 0 else ([], {})
     for p in problems: broken.append({"kind": "audit", "what": p})
+    # 3b. thorough tier: the compiled theorem modules are re-checked by the toolchain's independent checker
+    rechecked = []
+    if tier == "thorough" and rc == 0:
+        for mod in cfg["modules"]:
+            rcl, outl, errl = sh(f"lake env leanchecker {mod}", cwd=LEAN, timeout=3000)
+            if rcl != 0: broken.append({"kind": "leanchecker", "what": f"leanchecker rejects {mod}", "log": (outl + errl)[-600:]})
+            else: rechecked.append(mod)
     # 4. harnesses against the current working tree
     results = []
     hdir = ROOT / ("harness-server" if "server" in cfg else "harness")
@@ -167,7 +174,7 @@ def main():
                        "trusted_base": ["Lean 4.33.0 kernel", "axioms: " + json.dumps(axioms), "harness + ptmodel driver (correspondence)", "see DESIGN.md §6"],
                        "evaluations": (result or {}).get("executions", (result or {}).get("cases", 0)), "distinct_nontrivial": (result or {}).get("distinct_nontrivial", 0), "rule": cfg["rule"],
                        "samples": (result or {}).get("samples", []), "distribution": (result or {}).get("distribution", {}),
-                       "model_vs_impl_disagreements": len(disagreements), "impl_vs_oracle_failures": len(failures), "theorems": cfg["theorems"]},
+                       "model_vs_impl_disagreements": len(disagreements), "impl_vs_oracle_failures": len(failures), "theorems": cfg["theorems"], "leanchecker_rechecked_modules": rechecked},
           "assumptions": ["model tied to code by sampled correspondence only", "see DESIGN.md per-property 'Partial/assumed'"]}
     (ROOT / "evidence" / f"{prop}.json").write_text(json.dumps(ev, indent=1))
     for l in lines: print(l)
